@@ -790,7 +790,7 @@ func c14Concurrent(c *Ctx, r *rng.R, round int) {
 	var resetSeq uint32
 	verAtReset := make([]int32, nkeys)
 	stable := func(i int) bool { return i%4 == 0 }
-	var nDeletes, nResets, nExhausted, nDeadYield int64
+	var nDeletes, nResets, nExhausted, nDeadYield, nUnjudged int64
 	live := make([]bool, nkeys)   // writer-owned; read after the writer has finished
 	lastVer := make([]int, nkeys) // writer-owned
 	violate := func(sig, msg string) {
@@ -811,6 +811,16 @@ func c14Concurrent(c *Ctx, r *rng.R, round int) {
 	}
 	// s1 = resetSeq read before the call that returned the pair (useGen: check "put since the last Reset")
 	checkPair := func(who string, k, v []byte, seen map[int]int, s1 uint32, useGen bool) bool {
+		// The slices alias the table's buffer, which Reset hands to the following Puts: a pair can only be judged when
+		// no Reset overlapped the stretch from before the call that returned it to after our copy of it (the sequence
+		// lock is even and unchanged).  A reader that holds a pair across a Reset is outside memdb's contract.
+		k, v = append([]byte{}, k...), append([]byte{}, v...)
+		if resets {
+			if s2 := atomic.LoadUint32(&resetSeq); s1%2 != 0 || s2 != s1 {
+				atomic.AddInt64(&nUnjudged, 1)
+				return true
+			}
+		}
 		i, known := index[string(k)]
 		if !known {
 			violate("unknown-key", fmt.Sprintf("%s: key %x was never stored", who, k))
@@ -1134,6 +1144,7 @@ func c14Concurrent(c *Ctx, r *rng.R, round int) {
 	c.Res.CountN("conc", "prev-yields", int(nBack))
 	c.Res.CountN("conc", "deletes", int(nDeletes))
 	c.Res.CountN("conc", "resets", int(nResets))
+	c.Res.CountN("conc", "pairs-not-judged-reset-overlapped", int(nUnjudged))
 	c.Res.CountN("conc", "exhausted-after-reset", int(nExhausted))
 	_ = nDeadYield
 	c.Res.Count("conc-readers", strconv.Itoa(nread))
